@@ -7,6 +7,14 @@ intervals `[p·pd·ts, (p+1)·pd·ts)`; `reduceS` keeps the single-period entrie
 -/
 namespace Core
 
+/-- an accepted split is the split without the alignment check, and the periods are aligned -/
+theorem splitPeriod_ok (a : Asset) (cfg : MpdCfg) (wt : WrapTimes) (sets : List ASOut) (pph : Nat) (ps : List PeriodOut)
+    (h : splitPeriod a cfg wt sets pph = .ok ps) : splitPeriodCore a cfg wt sets pph = .ok ps := by
+  unfold splitPeriod at h
+  split at h
+  · simp at h
+  · exact h
+
 /-- **Tiling, stable ids**: the generated periods are `startP, startP+1, …, endP`, period `p` starts at
 `p · periodDuration` and has id `P{p}` — a function of `p` only, not of the instant. -/
 theorem c06_tile (a : Asset) (cfg : MpdCfg) (wt : WrapTimes) (sets : List ASOut) (pph : Nat) (ps : List PeriodOut)
@@ -15,7 +23,8 @@ theorem c06_tile (a : Asset) (cfg : MpdCfg) (wt : WrapTimes) (sets : List ASOut)
       (List.range' ((wt.startTimeMS - cfg.startS * 1000) / (3600 / pph * 1000))
         ((wt.nowMS - cfg.startS * 1000) / (3600 / pph * 1000) + 1 - (wt.startTimeMS - cfg.startS * 1000) / (3600 / pph * 1000))).map
         (fun p => (p, p * (3600 / pph))) := by
-  unfold splitPeriod at h
+  have h := splitPeriod_ok a cfg wt sets pph ps h
+  unfold splitPeriodCore at h
   by_cases h0 : pph = 0
   · simp [h0] at h
   by_cases h1 : a.segDurMS = 0
@@ -35,7 +44,8 @@ presented at `Period@start + (t − PTO)/timescale = t/timescale`, its time in t
 theorem c06_pto (a : Asset) (cfg : MpdCfg) (wt : WrapTimes) (sets : List ASOut) (pph : Nat) (ps : List PeriodOut)
     (h : splitPeriod a cfg wt sets pph = .ok ps) :
     ∀ p ∈ ps, p.sets.map (fun o => (o.pto, o.ts)) = sets.map (fun o => (some (p.startS * o.ts), o.ts)) := by
-  unfold splitPeriod at h
+  have h := splitPeriod_ok a cfg wt sets pph ps h
+  unfold splitPeriodCore at h
   by_cases h0 : pph = 0
   · simp [h0] at h
   by_cases h1 : a.segDurMS = 0
@@ -117,12 +127,15 @@ theorem c06_reject (a : Asset) (cfg : MpdCfg) (wt : WrapTimes) (sets : List ASOu
   unfold splitPeriod
   have h1 : ¬ pph = 0 := by omega
   have h2 : ¬ a.segDurMS = 0 := by omega
+  rw [if_neg (fun hc => hn hc.2.2.1)]
+  unfold splitPeriodCore
   simp [h1, h2, hn]
 
 /-- Continuity is signalled in every AdaptationSet of every period exactly when requested. -/
 theorem c06_continuity (a : Asset) (cfg : MpdCfg) (wt : WrapTimes) (sets : List ASOut) (pph : Nat) (ps : List PeriodOut)
     (h : splitPeriod a cfg wt sets pph = .ok ps) : ∀ p ∈ ps, ∀ o ∈ p.sets, o.cont = cfg.continuous := by
-  unfold splitPeriod at h
+  have h := splitPeriod_ok a cfg wt sets pph ps h
+  unfold splitPeriodCore at h
   by_cases h0 : pph = 0
   · simp [h0] at h
   by_cases h1 : a.segDurMS = 0
@@ -144,5 +157,69 @@ theorem c06_continuity (a : Asset) (cfg : MpdCfg) (wt : WrapTimes) (sets : List 
 /-- non-vacuity: a 6-entry timeline of 2 s segments at 90 kHz split at 60 s -/
 example : reduceS [(5040000, 180000), (5220000, 180000), (5400000, 180000), (5580000, 180000)] 28 (60 * 90000) (120 * 90000)
     = ([(5400000, 180000), (5580000, 180000)], 30) := by decide
+
+/-- **Period starts are segment starts**: when the alignment check passes, every multiple of the period duration,
+taken relative to the loop, is the start of a segment of the reference representation — for every period number `k`,
+i.e. in every loop of the stream. -/
+theorem c06_aligned_starts (r : Rep) (pd : Nat) (h : periodsOnStarts r pd = true) (k : Nat) :
+    ∃ s ∈ r.segs, s.start = (r.seg 0).start + (k * (pd * r.T)) % r.dur := by
+  unfold periodsOnStarts at h
+  simp only at h
+  split at h
+  · simp at h
+  · rename_i hc
+    have hL : r.dur ≠ 0 := fun e => hc (Or.inl e)
+    have hP : pd * r.T ≠ 0 := fun e => hc (Or.inr (Or.inl e))
+    have hg : 0 < Nat.gcd (pd * r.T) r.dur := Nat.gcd_pos_of_pos_right _ (Nat.pos_of_ne_zero hL)
+    have d1 : Nat.gcd (pd * r.T) r.dur ∣ pd * r.T := Nat.gcd_dvd_left _ _
+    have d2 : Nat.gcd (pd * r.T) r.dur ∣ r.dur := Nat.gcd_dvd_right _ _
+    have d3 : Nat.gcd (pd * r.T) r.dur ∣ (k * (pd * r.T)) % r.dur :=
+      (Nat.dvd_mod_iff d2).2 (Nat.dvd_trans d1 (Nat.dvd_mul_left _ _))
+    obtain ⟨j, hj⟩ := d3
+    have hlt : (k * (pd * r.T)) % r.dur < r.dur := Nat.mod_lt _ (Nat.pos_of_ne_zero hL)
+    have hjr : j < (r.dur + Nat.gcd (pd * r.T) r.dur - 1) / Nat.gcd (pd * r.T) r.dur := by
+      rw [Nat.lt_div_iff_mul_lt hg]
+      have : j * Nat.gcd (pd * r.T) r.dur < r.dur := by rw [Nat.mul_comm]; omega
+      omega
+    rw [List.all_eq_true] at h
+    have := h j (List.mem_range.2 hjr)
+    rw [List.any_eq_true] at this
+    obtain ⟨s, hs, he⟩ := this
+    refine ⟨s, hs, ?_⟩
+    rw [hj, Nat.mul_comm]
+    simpa using he
+
+/-- **Rejection of unaligned periods**: when the average segment duration divides the period but the period starts do
+not fall on segment starts of the reference track (2.002 s video with slightly shorter audio), the request is refused -/
+theorem c06_reject_unaligned (a : Asset) (cfg : MpdCfg) (wt : WrapTimes) (sets : List ASOut) (pph : Nat)
+    (hp : pph ≠ 0) (hs : a.segDurMS ≠ 0) (hd : 3600 / pph * 1000 % a.segDurMS = 0) (hn : periodsAligned a pph = false) :
+    splitPeriod a cfg wt sets pph = .err := by
+  unfold splitPeriod
+  rw [if_pos ⟨hp, hs, hd, hn⟩]
+
+/-- an accepted split is aligned -/
+theorem c06_accepted_aligned (a : Asset) (cfg : MpdCfg) (wt : WrapTimes) (sets : List ASOut) (pph : Nat) (ps : List PeriodOut)
+    (h : splitPeriod a cfg wt sets pph = .ok ps) : periodsAligned a pph = true := by
+  unfold splitPeriod at h
+  split at h
+  · simp at h
+  · rename_i hc
+    unfold splitPeriodCore at h
+    by_cases h0 : pph = 0
+    · simp [h0] at h
+    by_cases h1 : a.segDurMS = 0
+    · simp [h0, h1] at h
+    by_cases h2 : 3600 / pph * 1000 % a.segDurMS = 0
+    · cases hA : periodsAligned a pph with
+      | true => rfl
+      | false => exact absurd ⟨h0, h1, h2, hA⟩ hc
+    · simp [h0, h1, h2] at h
+
+/-- non-vacuity: one 8 s segment per loop against 60 s periods (period starts at loop offset 4 s): not aligned, against
+120 s periods: aligned; a loop of 3.5 + 6.4 + 0.1 s against 60 s periods: aligned (the periods start with the loop) -/
+example : periodsOnStarts (Rep.mk "V" .video 1 [⟨0, 8, 1⟩] 0 0 false false) 60 = false := by decide
+example : periodsOnStarts (Rep.mk "V" .video 1 [⟨0, 8, 1⟩] 0 0 false false) 120 = true := by decide
+example : periodsOnStarts (Rep.mk "V" .video 10 [⟨0, 35, 1⟩, ⟨35, 99, 2⟩, ⟨99, 100, 3⟩] 0 0 false false) 60 = true := by decide
+
 
 end Core
